@@ -126,6 +126,15 @@ def compare(res, case, algo, m_all, m_any):
         return False
     for order in sorted(tables):
         cells, mc = tables[order], mt[order]
+        # `_spfs` reads the row of the root object at the COMPLETE mask only (`subseq_complete(root_ordering)`):
+        # other entries of that row cannot reach any result, and whether they are filled is the implementation's
+        # business (the code itself fills them on multifurcating inputs, where `obj == srec_input.object_tree`
+        # is false for the re-parsed root; with a prescribed strict supersequence they would be instantiated).
+        full = (1 << len(order)) - 1
+        extra = [k for k in cells if k[0] == 0 and k[2] != full and k not in mc]
+        if extra:
+            res.dist[f"{algo}_code: unread root-row entries ignored"] += len(extra)
+            cells = {k: v for k, v in cells.items() if k not in extra}
         if set(cells) != set(mc):
             res.tie_broken(f"{tag}: set of instantiated table entries (ALL), root ordering {list(order)}", info,
                            sorted(set(mc) - set(cells))[:3], sorted(set(cells) - set(mc))[:3])
@@ -157,6 +166,11 @@ def compare(res, case, algo, m_all, m_any):
         return False
     ma = model_tables(m_any)
     vals = lambda ts: {o: {k: v[0] for k, v in cs.items()} for o, cs in ts.items()}  # noqa
+    def _read(ts):  # drop root-row entries `_spfs` never reads and the model does not have (see above)
+        return {o: {k: v for k, v in cs.items()
+                    if not (k[0] == 0 and k[2] != (1 << len(o)) - 1 and k not in mt.get(o, {}))}
+                for o, cs in ts.items()}
+    atables = _read(atables)
     if vals(atables) != vals(ma) or vals(atables) != vals(mt):
         res.tie_broken(f"{tag}: table values under 'any'", info)
         ok = False
@@ -233,6 +247,9 @@ PROBES = [
      "costs": {"spe": 0, "dup": 1, "hgt": 1, "floss": 1, "sloss": 1}},
     {"S": [[[], []], []], "O": [[{"s": "00", "f": [0, 1]}, {"s": "1", "f": [1]}], {"s": "01", "f": [0]}],
      "costs": {"spe": 1, "dup": 1, "hgt": 1, "floss": 1, "sloss": 1}},
+    # prescribed root order, a STRICT supersequence of the leaves (family 2 is carried by no leaf)
+    {"S": [[], []], "O": [{"s": "0", "f": [0]}, [{"s": "1", "f": [0, 1]}, {"s": "1", "f": [1]}]],
+     "costs": {"spe": 1, "dup": 1, "hgt": "inf", "floss": 1, "sloss": 1}, "root": [0, 2, 1]},
 ]
 
 
